@@ -186,7 +186,7 @@ theorem element_blo {ext : Ext} {x : SVal} {path sfs s idx key done} {S : List S
     refine ⟨?_, fun msg h => by simp [SaModel.ctx, SaModel.fail] at h⟩
     intro msg a e
     simp [SaModel.ctx, SaModel.fail] at e
-    refine ⟨path, hp, .inl ?_⟩
+    refine ⟨path, hp, ?_⟩
     rw [← e.2]
     simp [List.lookup, hm.hpath]
   · split
